@@ -25,7 +25,7 @@ ASSUMPTIONS = [
 ]
 MUST_SEE = ["grid_pairs", "grid_triples", "illformed_rejected", "hull_merges", "multi_results", "multi_operands", "sourceset_results", "get_raw_checked", "nested_range_pairs", "equal_but_distinct_sources"]
 CONFIG = {
-    "quick": {"shards": 16, "tuples": 1500, "watchdog_s": 300},
+    "quick": {"shards": 16, "tuples": 15000, "watchdog_s": 300},
     "thorough": {"shards": 32, "tuples": 40000, "watchdog_s": 3000},
 }
 
